@@ -162,7 +162,11 @@ def word_forms(chk):
     # integers stay integers; decimals take the registry's type
     for text, T in (("3 m", int), ("3.0 m", float), ("6 m / 2", float), ("2 ** 3 m", int), ("7 // 2 m", int)):
         chk.case(("literal-type", text))
-        m = u.parse_expression(text).magnitude
+        try:
+            m = u.parse_expression(text).magnitude
+        except Exception as e:
+            chk.diverge({"clause": "word-form-raises", "exc": type(e).__name__, "text": text}, {"text": text})
+            continue
         if type(m) is not T:
             chk.diverge({"clause": "literal-type", "text": text}, {"text": text, "expected": T.__name__, "observed": type(m).__name__})
 
